@@ -10,93 +10,42 @@
  * Key/value *identities* are distinct tokens (rank<<8 | id): the library must never dereference
  * them (integer addresses: any access is a CBMC pointer violation).
  *
- * compile-time parameters (runner): TT 0=BST 1=RB 2=AVL, H, OP, KPOS (operation key rank),
+ * The runner additionally fixes WHERE the search for the operation key ends: skeleton position PPOS
+ * (1..2N+1; positions > N are the NULL links below the bottom level) and HIT (1: the key is stored at
+ * PPOS, 0: the search falls off the tree at PPOS).  All ancestors of PPOS are then present, PPOS itself
+ * is present iff HIT; everything else stays symbolic.  This is a complete case split (every search
+ * ends somewhere) and makes the search path concrete for the symbolic executor.
+ *
+ * compile-time parameters (runner): TT 0=BST 1=RB 2=AVL, H, OP, PPOS, HIT,
  *   NEWMODE 0=p_tree_new 1=p_tree_new_with_data 2=p_tree_new_full(+notifiers),
  *   CHK_MAP / CHK_BAL / CHK_OWN assertion groups (C12 / C13 / C14). */
-#include "verif.h"
-#include "alloc.h"
-#include <pmem.h>
-#include "ptree.c"
-#include "ptree-bst.c"
-#include "ptree-rb.c"
-#include "ptree-avl.c"
-
 #ifndef H
 #define H 3
-#endif
-#ifndef TT
-#define TT 1
-#endif
-#ifndef NEWMODE
-#define NEWMODE 2
 #endif
 #define OP_INSERT 0
 #define OP_REMOVE 1
 #define OP_LOOKUP 2
 #define OP_FOREACH 3
 #define OP_CLEAR 4
-#define OP_LEMMA 5
 
 #define N ((1 << H) - 1)          /* skeleton positions 1..N */
 #define NK (2 * N + 1)            /* key ranks 1..NK (even = skeleton node, odd = gap) */
-#define PH (H + 1)                /* post-state height bound after one insert */
-
-#if TT == 0
-typedef PTreeBaseNode NODE;
-#define TREETYPE P_TREE_TYPE_BINARY
-#elif TT == 1
-typedef PTreeRBNode NODE;
-#define TREETYPE P_TREE_TYPE_RB
-#else
-typedef PTreeAVLNode NODE;
-#define TREETYPE P_TREE_TYPE_AVL
+#define PH ((H + 1) > 5 ? 5 : (H + 1))   /* post-state height bound after one insert (checker supports <= 5) */
+#if H > 4 && (OP == 0 || OP == 1)
+#error "insert/remove steps are supported up to H = 4"
 #endif
-#define B(x) ((PTreeBaseNode *) (x))
-
-#define KEY(rank, id) ((ppointer) (size_t) (((rank) << 8) | (id)))
-#define VAL(rank, id) ((ppointer) (size_t) (0x10000 | ((rank) << 8) | (id)))
-#define RANK(p) ((int) ((((size_t) (p)) >> 8) & 0xff))
-#define ID(p) ((int) (((size_t) (p)) & 0xff))
-#define ISVAL(p) ((int) ((((size_t) (p)) >> 16) & 1))
-#define ID_OLD 1   /* pairs of the pre-state */
-#define ID_NEW 2   /* pair passed to the operation */
-#define ID_PROBE 3 /* keys only used for searching (remove / lookup argument) */
-
-#define UDATA ((ppointer) (size_t) 0x7001)
-#define UDATA2 ((ppointer) (size_t) 0x7002)
-
-/* ---- comparator: total order on ranks, arbitrary magnitude, counts calls ---------------------- */
-static int cmp_calls, cmp_mag = 1;
-static int phase;                          /* 0: the operation under test, 1: the following p_tree_free */
-static unsigned char kd[2][NK + 1][4], vd[2][NK + 1][4];   /* destroy-notifier call counts [phase][rank][id] */
-static int nd_calls;
-
-static pint cmp3(pconstpointer a, pconstpointer b, ppointer data) {
-  cmp_calls++;
-#if NEWMODE == 0
-  VASSERT(data == NULL, "p_tree_new: comparator data is NULL");
-#else
-  VASSERT(data == UDATA, "comparator receives the user data given at creation");
+#define IDMAX 2                   /* storable identities: 1 = pre-state pair, 2 = pair given to the operation */
+#define NPHASE 2                  /* 0: the operation under test, 1: the following p_tree_free */
+#define ID_OLD 1
+#define ID_NEW 2
+#ifdef PPOS
+/* rank of the operation key: the rank of skeleton node PPOS, or the gap rank of NULL link PPOS > N */
+#define KPOS (PPOS <= N ? 2 * sk_inorder(PPOS) : 2 * (PPOS - N - 1) + 1)
+#ifndef HIT
+#define HIT 0
 #endif
-  int ra = RANK(a), rb = RANK(b);
-#ifdef CHK_OWN
-  VASSERT(ra >= 1 && ra <= NK && rb >= 1 && rb <= NK && ID(a) <= 3 && ID(b) <= 3, "comparator only sees keys given by the user");
-  VASSERT(kd[0][ra][ID(a)] == 0 && kd[0][rb][ID(b)] == 0, "no key is compared after its destroy notifier ran");
 #endif
-  return ra < rb ? -cmp_mag : (ra > rb ? cmp_mag : 0);
-}
-
-/* ---- destroy notifiers -------------------------------------------------------------------------- */
-static void key_destroyed(ppointer k) {
-  VASSERT(!ISVAL(k) && RANK(k) >= 1 && RANK(k) <= NK && ID(k) >= 1 && ID(k) <= 2, "key notifier gets a key that was given to the tree");
-  kd[phase][RANK(k)][ID(k)]++;
-  nd_calls++;
-}
-static void val_destroyed(ppointer v) {
-  VASSERT(ISVAL(v) && RANK(v) >= 1 && RANK(v) <= NK && ID(v) >= 1 && ID(v) <= 2, "value notifier gets a value that was given to the tree");
-  vd[phase][RANK(v)][ID(v)]++;
-  nd_calls++;
-}
+#include "trees_common.h"
 
 /* ---- skeleton ------------------------------------------------------------------------------------ */
 static int sk_depth(int i) { return i < 2 ? 0 : i < 4 ? 1 : i < 8 ? 2 : i < 16 ? 3 : i < 32 ? 4 : 5; }
@@ -114,6 +63,39 @@ done:
   return (1 << d) + (m - 1) / 2;
 }
 
+/* presence fixed by the runner's case split: 1 / 0, or -1 = symbolic.
+ * REMCASE (remove of a stored key only) additionally fixes the neighbourhood that decides WHICH node
+ * gets unlinked: 0 = PPOS is a leaf, 1 = only a left child, 2 = only a right child,
+ * 3+j = two children and the in-order predecessor is j steps to the right of the left child. */
+static int fixed_presence(int i) {
+#ifdef PPOS
+  if (i == PPOS) return HIT;
+  if (i == PPOS / 2 || i == PPOS / 4 || i == PPOS / 8 || i == PPOS / 16 || i == PPOS / 32) return 1;
+#ifdef REMCASE
+  if (REMCASE == 0) { if (i == 2 * PPOS || i == 2 * PPOS + 1) return 0; }
+  else if (REMCASE == 1) { if (i == 2 * PPOS) return 1; if (i == 2 * PPOS + 1) return 0; }
+  else if (REMCASE == 2) { if (i == 2 * PPOS) return 0; if (i == 2 * PPOS + 1) return 1; }
+  else {
+    int q = 2 * PPOS, j = REMCASE - 3;
+    if (i == 2 * PPOS + 1) return 1;
+    if (i == q) return 1;
+    if (j >= 1) { q = 2 * q + 1; if (i == q) return 1; }
+    if (j >= 2) { q = 2 * q + 1; if (i == q) return 1; }
+    if (j >= 3) { q = 2 * q + 1; if (i == q) return 1; }
+    if (i == 2 * q + 1) return 0;
+  }
+#endif
+#endif
+  (void) i;
+  return -1;
+}
+
+/* optional further case split by the runner: colour (1 red / 2 black) or balance factor of chosen
+ * skeleton positions, as an expression in i; -2 = not fixed (symbolic) */
+#ifndef FIXA
+#define FIXA(i) (-2)
+#endif
+
 static NODE *nd[2 * N + 2];
 static _Bool pres[2 * N + 2];
 static int ht[2 * N + 2];         /* heights of the pre-state subtrees */
@@ -121,22 +103,20 @@ static int bhh[2 * N + 2];        /* black heights (RB) */
 static int colr[2 * N + 2];
 static int pre_n;
 
-/* reference map */
-static _Bool exp_pres[NK + 2];
-static ppointer exp_key[NK + 2], exp_val[NK + 2];
-static int exp_n;
-
-static PTree *tree;
-
 static void build_pre_state(void) {
   int i;
   for (i = 1; i <= N; i++) {
-    pres[i] = ND_BOOL();
+    int f = fixed_presence(i);
+    if (f >= 0) pres[i] = (_Bool) f; else pres[i] = ND_BOOL();
     if (i > 1) VASSUME(!pres[i] || pres[i / 2]);
   }
   pre_n = 0;
   for (i = 1; i <= N; i++) {
-    if (pres[i]) { nd[i] = (NODE *) vm_malloc(sizeof(NODE)); pre_n++; } else nd[i] = NULL;
+    /* every skeleton position is a separate heap object with a concrete address; only the present
+     * ones are linked and counted in the allocator ledger */
+    nd[i] = (NODE *) malloc(sizeof(NODE));
+    __CPROVER_assume(nd[i] != NULL);
+    if (pres[i]) { vm_live++; pre_n++; }
   }
   for (i = N; i >= 1; i--) {
     int l = 2 * i, r = 2 * i + 1;
@@ -151,7 +131,7 @@ static void build_pre_state(void) {
       ht[i] = 1 + (ht[l] > ht[r] ? ht[l] : ht[r]);
 #if TT == 1
       x->parent = i > 1 ? nd[i / 2] : NULL;
-      colr[i] = ND_BOOL() ? P_TREE_RB_COLOR_RED : P_TREE_RB_COLOR_BLACK;
+      colr[i] = FIXA(i) != -2 ? FIXA(i) : (ND_BOOL() ? P_TREE_RB_COLOR_RED : P_TREE_RB_COLOR_BLACK);
       x->color = (PTreeRBColor) colr[i];
       /* representation invariant: no red node has a red child, equal black height */
       if (colr[i] == P_TREE_RB_COLOR_RED) {
@@ -164,7 +144,8 @@ static void build_pre_state(void) {
 #elif TT == 2
       x->parent = i > 1 ? nd[i / 2] : NULL;
       VASSUME(ht[l] - ht[r] >= -1 && ht[l] - ht[r] <= 1);
-      x->balance_factor = ht[l] - ht[r];
+      if (FIXA(i) != -2) { VASSUME(ht[l] - ht[r] == FIXA(i)); x->balance_factor = FIXA(i); }
+      else x->balance_factor = ht[l] - ht[r];
 #endif
     } else {
       ht[i] = 0; bhh[i] = 0;
@@ -173,89 +154,7 @@ static void build_pre_state(void) {
   exp_n = pre_n;
 }
 
-/* ---- generic post-state checker (follows pointers from the root; knows nothing about the skeleton) */
-static int g_cnt;
-#if TT == 1
-#define IS_RED(x) (((NODE *) (x))->color == P_TREE_RB_COLOR_RED)
-#else
-#define IS_RED(x) 0
-#endif
-/* returns height | black-height << 8 */
-static int chk_end(PTreeBaseNode *x) {
-  VASSERT(x == NULL, "post-state height <= H+1");
-  return 0;
-}
-#define CHKBODY(NEXT) \
-  if (x == NULL) return 0; \
-  int r = RANK(x->key); \
-  VASSERT(lo < r && r < hi, "BST order: every key strictly inside the bounds given by its ancestors"); \
-  VASSERT(r <= NK && exp_pres[r], "stored key belongs to the reference map"); \
-  VASSERT(x->key == exp_key[r], "stored key object = reference (replace stores the new key)"); \
-  VASSERT(x->value == exp_val[r], "stored value = reference"); \
-  g_cnt++; \
-  CHK_TYPED \
-  int a = NEXT(x->left, x, lo, r, IS_RED(x)); int b = NEXT(x->right, x, r, hi, IS_RED(x)); \
-  int hl = a & 0xff, hr = b & 0xff; \
-  CHK_BAL_TYPED \
-  return (1 + (hl > hr ? hl : hr)) | ((BLACKS) << 8);
-
-#if TT == 0
-#define CHK_TYPED
-#define CHK_BAL_TYPED
-#define BLACKS 0
-#elif TT == 1
-#define CHK_TYPED \
-  VASSERT(((NODE *) x)->parent == (NODE *) par, "RB parent link consistent"); \
-  VASSERT(((NODE *) x)->color == P_TREE_RB_COLOR_RED || ((NODE *) x)->color == P_TREE_RB_COLOR_BLACK, "RB colour is red or black"); \
-  VASSERT(!(parred && IS_RED(x)), "RB: no red node has a red child"); \
-  VASSERT(par != NULL || !IS_RED(x), "RB: root is black");
-#define CHK_BAL_TYPED \
-  VASSERT((a >> 8) == (b >> 8), "RB: equal black height of both subtrees");
-#define BLACKS ((a >> 8) + (IS_RED(x) ? 0 : 1))
-#else
-#define CHK_TYPED \
-  VASSERT(((NODE *) x)->parent == (NODE *) par, "AVL parent link consistent");
-#define CHK_BAL_TYPED \
-  VASSERT(hl - hr >= -1 && hl - hr <= 1, "AVL: subtree heights differ by at most one"); \
-  VASSERT(((NODE *) x)->balance_factor == hl - hr, "AVL: stored balance factor = left height - right height");
-#define BLACKS 0
-#endif
-
-static int chk_e(PTreeBaseNode *x, PTreeBaseNode *par, int lo, int hi, int parred) { (void) par; (void) lo; (void) hi; (void) parred; return chk_end(x); }
-static int chk5(PTreeBaseNode *x, PTreeBaseNode *par, int lo, int hi, int parred) { CHKBODY(chk_e) }
-static int chk4(PTreeBaseNode *x, PTreeBaseNode *par, int lo, int hi, int parred) { CHKBODY(chk5) }
-static int chk3(PTreeBaseNode *x, PTreeBaseNode *par, int lo, int hi, int parred) { CHKBODY(chk4) }
-static int chk2(PTreeBaseNode *x, PTreeBaseNode *par, int lo, int hi, int parred) { CHKBODY(chk3) }
-static int chk1(PTreeBaseNode *x, PTreeBaseNode *par, int lo, int hi, int parred) { CHKBODY(chk2) }
-#if PH == 5
-#define CHKROOT chk1
-#elif PH == 4
-#define CHKROOT chk2
-#elif PH == 3
-#define CHKROOT chk3
-#else
-#error "unsupported H"
-#endif
-
-/* depth bounds of the property statement: floor(1.44*log2(n+2)) (AVL), floor(2*log2(n+1)) (RB), n = 0..31 */
-static const int avl_bound[32] = {1,2,2,3,3,4,4,4,4,4,5,5,5,5,5,5,6,6,6,6,6,6,6,6,6,6,6,6,6,7,7,7};
-static const int rb_bound[32]  = {0,2,3,4,4,5,5,6,6,6,6,7,7,7,7,8,8,8,8,8,8,8,8,9,9,9,9,9,9,9,9,10};
-
-static int post_height;
-static void check_post_state(void) {
-  g_cnt = 0;
-  int r = CHKROOT(tree->root, NULL, 0, NK + 1, 0);
-  post_height = r & 0xff;
-  VASSERT(g_cnt == exp_n, "number of stored pairs = size of the reference map (with BST order + membership: in-order content = reference)");
-  VASSERT(p_tree_get_nnodes(tree) == exp_n, "nnodes = number of distinct keys");
-  VASSERT(vm_live == exp_n + 1, "one node block per stored pair (+ the tree object): nothing leaked, nothing else allocated");
-#if defined(CHK_BAL) && TT == 2
-  VASSERT(post_height <= avl_bound[exp_n], "AVL: height <= floor(1.44*log2(n+2))");
-#elif defined(CHK_BAL) && TT == 1
-  VASSERT(post_height <= rb_bound[exp_n], "RB: height <= floor(2*log2(n+1))");
-#endif
-}
-
+static int op_rank;   /* rank of the operation key */
 /* exactly-once accounting over the whole run (operation + p_tree_free) */
 static void check_notifier_counts(int leave_rank, int leave_id, int after_free) {
   int r, id;
@@ -263,7 +162,7 @@ static void check_notifier_counts(int leave_rank, int leave_id, int after_free) 
     for (id = 1; id <= 2; id++) {
       int stored_ever = (id == ID_OLD) ? ((r % 2 == 0) && pres[sk_pos(r / 2)]) : 0;
 #if OP == OP_INSERT
-      if (id == ID_NEW && r == KPOS) stored_ever = 1;
+      if (id == ID_NEW && r == op_rank) stored_ever = 1;
 #endif
       int leaves_now = (r == leave_rank && id == leave_id);
 #if OP == OP_CLEAR
@@ -298,25 +197,7 @@ static pboolean fe_cb(ppointer key, ppointer value, ppointer ud) {
   return FALSE;
 }
 
-static void make_tree(void) {
-  vm_alloc_install();
-#if NEWMODE == 0
-  tree = p_tree_new(TREETYPE, (PCompareFunc) cmp3);
-#elif NEWMODE == 1
-  tree = p_tree_new_with_data(TREETYPE, cmp3, UDATA);
-#else
-  tree = p_tree_new_full(TREETYPE, cmp3, UDATA, key_destroyed, val_destroyed);
-#endif
-  VASSERT(tree != NULL, "tree created");
-  VASSERT(p_tree_get_type(tree) == TREETYPE && p_tree_get_nnodes(tree) == 0, "new tree: type as requested, empty");
-  cmp_mag = ND_INT();
-  VASSUME(cmp_mag >= 1);
-}
-
 /* ---- the step -------------------------------------------------------------------------------------- */
-#ifdef KPOS
-#define KEVEN (KPOS % 2 == 0)
-#endif
 
 void harness(void) {
   int i;
@@ -327,38 +208,58 @@ void harness(void) {
   PTreeBaseNode *oldroot = tree->root;
   (void) oldroot; (void) i;
 
+#if (OP == OP_INSERT || OP == OP_REMOVE) && defined(PPOS)
+  /* the search for the operation key ends at skeleton position PPOS (fixed by the runner) */
+  const int kpos = KPOS;
+  const _Bool was = HIT;
+  _Bool twoch = was && pres[2 * PPOS] && pres[2 * PPOS + 1];
+  _Bool onech = was && (pres[2 * PPOS] != pres[2 * PPOS + 1]);
+  VASSERT(HIT == 0 || PPOS <= N, "harness: a hit is only possible at a skeleton node");
+#elif OP == OP_INSERT
+  /* no PPOS: REPLACE of an arbitrary stored key (symbolic position; no structural change expected) */
+  const int kpos = ND_RANGE(1, NK);
+  const _Bool was = 1;
+  VASSUME(exp_pres[kpos]);
+#elif OP == OP_REMOVE
+  /* no PPOS: remove of an arbitrary ABSENT key (symbolic position; nothing may change) */
+  const int kpos = ND_RANGE(1, NK);
+  const _Bool was = 0;
+  VASSUME(!exp_pres[kpos]);
+#endif
 #if OP == OP_INSERT || OP == OP_REMOVE
-  int kp = KEVEN ? sk_pos(KPOS / 2) : 0;                 /* skeleton position carrying rank KPOS (if even) */
-  _Bool was = KEVEN ? pres[kp] : 0;
-  _Bool twoch = was && pres[2 * kp] && pres[2 * kp + 1];
-  _Bool onech = was && (pres[2 * kp] != pres[2 * kp + 1]);
+  op_rank = kpos;
 #endif
 
 #if OP == OP_INSERT
-  p_tree_insert(tree, KEY(KPOS, ID_NEW), VAL(KPOS, ID_NEW));
-  exp_pres[KPOS] = 1; exp_key[KPOS] = KEY(KPOS, ID_NEW); exp_val[KPOS] = VAL(KPOS, ID_NEW);
+  p_tree_insert(tree, KEY(kpos, ID_NEW), VAL(kpos, ID_NEW));
+  exp_pres[kpos] = 1; exp_key[kpos] = KEY(kpos, ID_NEW); exp_val[kpos] = VAL(kpos, ID_NEW);
   exp_n = pre_n + (was ? 0 : 1);
   check_post_state();
 #ifdef CHK_OWN
-  check_notifier_counts(was ? KPOS : 0, ID_OLD, 0);
+  check_notifier_counts(was ? kpos : 0, ID_OLD, 0);
 #endif
 #elif OP == OP_REMOVE
-#if defined(KF_OPEN_C14_two_child_remove) && NEWMODE == 2
+#if defined(KF_OPEN_C14_two_child_remove) && NEWMODE == 2 && defined(PPOS)
   VASSUME(!twoch);   /* open finding: removal of a node with two children destroys the wrong pair */
 #endif
-#ifdef KF_DEMO
-  VASSUME(twoch);
-#endif
-  pboolean ret = p_tree_remove(tree, KEY(KPOS, ID_PROBE));
+  pboolean ret = p_tree_remove(tree, KEY(kpos, ID_PROBE));
   VASSERT(ret == (was ? TRUE : FALSE), "remove returns TRUE iff the key was stored");
-  if (was) { exp_pres[KPOS] = 0; exp_n = pre_n - 1; }
+  if (was) { exp_pres[kpos] = 0; exp_n = pre_n - 1; }
   check_post_state();
 #ifdef CHK_OWN
-  check_notifier_counts(was ? KPOS : 0, ID_OLD, 0);
+  check_notifier_counts(was ? kpos : 0, ID_OLD, 0);
 #endif
 #endif
 
 #if OP == OP_INSERT || OP == OP_REMOVE
+#if !defined(PPOS)
+  /* replace / unsuccessful remove leave the structure pointer-for-pointer unchanged */
+  VASSERT(tree->root == oldroot, "replace / unsuccessful remove: root unchanged");
+  for (i = 1; i <= N; i++) if (pres[i]) {
+    VASSERT(B(nd[i])->left == (pres[2 * i] ? B(nd[2 * i]) : NULL) && B(nd[i])->right == (pres[2 * i + 1] ? B(nd[2 * i + 1]) : NULL),
+            "replace / unsuccessful remove: links unchanged");
+  }
+#endif
 #ifdef CHK_LOOKUP_AFTER
   { /* lookup of an arbitrary key after the operation = reference */
     int q = ND_RANGE(1, NK);
@@ -371,38 +272,40 @@ void harness(void) {
   p_tree_free(tree);
   VASSERT(vm_live == 0, "p_tree_free releases every node and the tree");
 #ifdef CHK_OWN
-  check_notifier_counts(was ? KPOS : 0, ID_OLD, 1);
+  check_notifier_counts(was ? kpos : 0, ID_OLD, 1);
 #endif
 #endif
   VWITNESS("step done");
-#if OP == OP_INSERT
-#if KPOS % 2 == 0
-  if (was) VWITNESS("replace of a stored key");
-#endif
-  if (!was && pre_n == N - 1 && H > 1) VWITNESS("insert into a tree with all but one skeleton positions filled");
-  if (!was && tree->root != oldroot && pre_n > 0 && TT != 0) VWITNESS("insert rotated at the root");
-  if (!was && post_height == H + 1) VWITNESS("insert increased the height beyond H");
+#if !defined(PPOS)
+  if (pre_n == N) VWITNESS("operation on the full skeleton");
+  if (kpos == 2) VWITNESS("operation key is the smallest skeleton rank");
+#elif OP == OP_INSERT
+#if HIT
+  VWITNESS("replace of a stored key");
 #else
-#if KPOS % 2 == 0
-  if (was && !twoch && !onech) VWITNESS("remove of a leaf");
-#if (KPOS / 2) % 2 == 0
-#if !(defined(KF_OPEN_C14_two_child_remove) && NEWMODE == 2)
-  if (twoch) VWITNESS("remove of a node with two children");
+  VWITNESS("insert of a new key");
 #endif
-#ifndef KF_DEMO
-  if (onech) VWITNESS("remove of a node with one child");
+#else
+#if HIT
+#if REMCASE == 0
+  VASSERT(!twoch && !onech, "harness: leaf case");
+  VWITNESS("remove of a leaf");
+#elif REMCASE <= 2
+  VASSERT(onech, "harness: one-child case");
+  VWITNESS("remove of a node with one child");
+#else
+  VASSERT(twoch, "harness: two-children case");
+  VWITNESS("remove of a node with two children");
 #endif
-#endif
-#endif
-#ifndef KF_DEMO
-  if (!was) VWITNESS("remove of an absent key");
+#else
+  VWITNESS("remove of an absent key");
 #endif
 #endif
 #endif
 
 #if OP == OP_LOOKUP
   {
-#ifdef KPOS
+#ifdef PPOS
     int q = KPOS;
 #else
     int q = ND_RANGE(1, NK);
